@@ -212,4 +212,14 @@ theorem C19_format_test_step_generated (D : Desc) (s : St) (f : Fsm) :
     formatTestArgs D s f = Gen.format_test_args D s f :=
   formatTestArgs_generated D s f
 
+/-- the command-list printer — which entry is looked at, that disabled entries are skipped, the order RUN, READ, WRITE,
+TEST of the forms, the availability condition of each form, the text `AT` ++ name ++ suffix between line breaks (the
+opening one only before the first line), the failure when a line does not fit, the move to the next entry and the
+final OK — is the function translated statement by statement from `print_cmd_list`, `print_current_cmd_full_name`
+and `cmd_list_next_cmd` of the source on every run (translator item T20) -/
+theorem C19_list_printer_generated (D : Desc) (s : St) (x : List Byte) :
+    printCmdList D s = Gen.print_cmd_list D s ∧ printCurrentCmdFullName D s x = Gen.print_current_cmd_full_name D s x ∧
+    cmdListNextCmd D s = Gen.cmd_list_next_cmd D s :=
+  ⟨printCmdList_generated D s, printCurrentCmdFullName_generated D s x, cmdListNextCmd_generated D s⟩
+
 end Cat
